@@ -90,7 +90,7 @@ import math as _math
 
 SPECIAL_SCALARS = [
     _math.inf, -_math.inf, _math.nan, -0.0, 0.0, 1.7976931348623157e308, -1.7976931348623157e308, 5e-324, 1e-320, 2.2250738585072014e-308, 0.1, 1e16, 1 / 3,
-    2 ** 53 + 1, 2 ** 63, -(2 ** 63) - 1, 2 ** 64, 10 ** 30, -(10 ** 400), 2 ** 1024,
+    2 ** 53 + 1, 2 ** 63, -(2 ** 63) - 1, 2 ** 64, 10 ** 30, -(10 ** 400), 2 ** 1024, 2 ** 3000, -(2 ** 14000), 10 ** 5000,
     "NaN", "Infinity", "-Infinity", "null", "-0.0", "\u2028x\u2029", "\x00", "\x7f\x85", "é😀", "\ud800", "a\udfffb", "\\\"/\n\t", "__id", "__ref_count", "items",
     "L" * 3000,
 ]
@@ -211,12 +211,13 @@ def g_action(rng, bad=False):
                   rng.choice(["INITIALIZED", "STARTING", "STARTED", "STOPPING", "FINISHED"]), ctx, args, rng.randrange(3)]}
 
 
-BAD_KINDS = ["regex", "cmp", "other", "intkey", "nonekey", "boolkey", "tuplekey", "action_set", "action_tuple", "action_typekey", "partial"]
+BAD_KINDS = ["regex", "cmp", "other", "bytes", "view", "method", "intkey", "nonekey", "boolkey", "tuplekey", "action_set", "action_tuple", "action_typekey", "partial"]
 
 
 def plant(rng, v, kind):
     """put one unsupported leaf somewhere in v (returns a new value)"""
     leaf = {"regex": {"r": rng.choice(pv.REGEXES)}, "cmp": {"c": [rng.choice(["less_than", "equal_greater_than", "not_equal_to"]), rng.choice([{"i": 3}, {"f": [5, 1]}, True])]}, "other": {"o": "Unknown"}, "partial": {"p": 1},
+            "bytes": {"o": "bytes"}, "view": {"o": rng.choice(["dict_keys", "dict_values", "dict_items"])}, "method": {"o": "builtin_function_or_method"},
             "intkey": {"d": [[{"i": rng.choice([1, 0, -2])}, {"s": "a"}], [{"s": "k"}, {"i": 1}]]},
             "nonekey": {"d": [[None, {"i": 3}], [{"s": "s"}, {"r": ["a+", 32]}]]}, "boolkey": {"d": [[True, {"i": 4}]]},
             "tuplekey": {"d": [[{"T": rng.choice([[], [{"i": 1}, {"s": "b"}], [None, True]])}, {"i": 5}], [{"i": 7}, {"l": [{"s": "x"}]}]]},
@@ -255,10 +256,11 @@ def g_ser_case(rng, depth):
                 v = {"d": [[{"s": "x"}, v]]}
             pool.append(v)
     v = g_value(rng, depth, npool)
-    if rng.random() < 0.03:
-        # deep nesting: a chain of 20..100 containers of mixed kinds around the value
+    if rng.random() < 0.05:
+        # deep nesting: a chain of 20..100 containers around the value — of one kind (a depth limit per container kind) or mixed
+        chain = rng.choice(["mixed", "mixed", "l", "l", "d", "t", "q", "di"])
         for _ in range(rng.randrange(20, 101)):
-            w = rng.random()
+            w = rng.random() if chain == "mixed" else {"l": 0.0, "d": 0.5, "t": 0.8, "q": 0.9, "di": 0.99}[chain]
             v = {"l": [v]} if w < 0.4 else {"d": [[{"s": "n"}, v]]} if w < 0.7 else {"t": [v]} if w < 0.85 else {"q": [v]} if w < 0.95 else {"d": [[{"i": 1}, v]]}
     if npool and rng.random() < 0.8:
         v = {"l": [v] + [{"share": rng.randrange(npool)} for _ in range(rng.randrange(1, 4))]}
@@ -332,7 +334,9 @@ SPECIAL_LITERALS = [
 LITERALS = [
     '{"a", "b"}', '{1, 2, 3}', 'regex("a+")', '{1: "one", 2: [3, {"k": regex("b")}]}', '[1, [2, {"k": "v"}]]', '{"k": [1, 2], "n": {"z": {"q", "r"}}}', '[{"x"}, {"y": {1}}]', '"txt"', "42", "2.5", "True", "None", "[]", '{"only"}',
 ]
-BAD_LITERALS = {"regex": 'regex("a+")', "cmp": "less_than(3)", "intkey": '{1: "one", 2: "two"}'}
+BAD_LITERALS = {"regex": 'regex("a+")', "cmp": "less_than(3)", "intkey": '{1: "one", 2: "two"}',
+                # values of built-in types the encoder has no branch for / CPython cannot write in decimal (open findings)
+                "bytes": '"abc".encode()', "view": '{"a": 1}.keys()', "method": "[1].append", "hugeint": "10 ** 5000"}
 
 SUBFLOWS = {
     "helper": "flow helper $p\n  match Go(k=$p)\n  send HelperDone(p=$p)\n",
@@ -396,7 +400,15 @@ def g_program(rng, want=None):
     for _ in range(nstmt):
         r = rng.random()
         if r < 0.16:
-            if rng.random() < 0.3:
+            w = rng.random()
+            if w < 0.06 and "deep-loop" not in feats:
+                # nesting as deep as a loop makes it (no literal is that deep): lists or dicts, 30..120 levels
+                v, i = newval(), newvar()
+                k = rng.randrange(30, 121)
+                wrap = rng.choice(["[{v}]", '{{"k": {v}}}', '[0, {{"in": {v}}}]']).format(v=v)
+                lines += [f"  {v} = [1.5]", f"  {i} = 0", f"  while {i} < {k}", f"    {v} = {wrap}", f"    {i} = {i} + 1"]
+                feats.add("deep-loop")
+            elif w < 0.3:
                 lines.append(f"  {newval()} = {rng.choice(SPECIAL_LITERALS)}")
                 feats.add("special-literal")
             else:
@@ -565,6 +577,8 @@ def gen_cases(rng, tier):
             want = "alias"
         elif r < 0.09:
             want = "cycle"
+        elif r < 0.12:
+            want = rng.choice(["bytes", "view", "method", "hugeint"])
         ml = maxlen if tier == "quick" else rng.choice([8, 8, 12, 12, 25])
         cases.append(g_e2e_case(rng, ml, want))
     for i in range(12 if tier == "quick" else 160):
@@ -1024,7 +1038,8 @@ def _state_facts(state):
     """structural facts about a reached state, used by signature()"""
     from dataclasses import is_dataclass
 
-    facts = {"nonstr_keys": False, "regex": False, "cmp": False}
+    facts = {"nonstr_keys": False, "regex": False, "cmp": False, "builtin_other": False, "huge_int": False}
+    views = (type({}.keys()), type({}.values()), type({}.items()), type([].append), bytes)
     seen = set()
     stack = [fs.context for fs in state.flow_states.values()] + [state.context]
     n = 0
@@ -1042,6 +1057,10 @@ def _state_facts(state):
             stack.extend(x)
         elif isinstance(x, re.Pattern):
             facts["regex"] = True
+        elif isinstance(x, views):
+            facts["builtin_other"] = True
+        elif isinstance(x, int) and pv.too_long_for_decimal(x):
+            facts["huge_int"] = True
         elif type(x).__name__ == "ComparisonExpression":
             facts["cmp"] = True
         elif is_dataclass(x) and type(x).__name__ in ("Event", "InternalEvent", "ActionEvent"):
@@ -1652,6 +1671,10 @@ def signature(case, obs, msg):
                 return "state-holds-comparison"
             if "not JSON serializable" in msg or "keys must be" in msg:
                 return "action-payload-not-json"
+        if _pv_has(seen, lambda j: isinstance(j, dict) and j.get("o") in pv.BUILTIN_OTHERS):
+            return "state-holds-unserialisable-builtin"
+        if _pv_has(seen, lambda j: isinstance(j, dict) and "ih" in j and pv.too_long_for_decimal(int(j["ih"], 16))):
+            return "int-beyond-str-digits"
         if _pv_has(seen, lambda j: isinstance(j, dict) and "c" in j):
             return "state-holds-comparison"
         if _pv_has(seen, lambda j: isinstance(j, dict) and "a" in j):
@@ -1681,6 +1704,10 @@ def signature(case, obs, msg):
             return "cyclic-state-reference"
         if p["kind"] == "typeError" and facts.get("action_nonjson"):
             return "action-payload-not-json"
+        if p["kind"] == "unhandled" and facts.get("builtin_other") and re.search(r"'(bytes|dict_keys|dict_values|dict_items|builtin_function_or_method)'", p["msg"]):
+            return "state-holds-unserialisable-builtin"
+        if p["kind"] == "intDigits" and facts.get("huge_int"):
+            return "int-beyond-str-digits"
         return None
     if p["what"] == "ageing-diverges" and "KeyError" in json.dumps(p.get("copy")) and len(re.findall(r"activate shared", case["src"])) >= 2:
         return "cleanup-dangling-parent"
